@@ -69,12 +69,17 @@ Proof.
   destruct H as [H | H]; [apply MAltL; exact H | apply MAltR, MAltR; exact H].
 Qed.
 
-(* the byte class of table_spoiler: apostrophe or bar *)
-Lemma cls_29_bytes b : cs_mem [(39, 39)%N; (124, 124)%N] b = true -> b = x27 \/ b = x7c.
+(* the byte class of table_spoiler: apostrophe or bar (the set is taken from the regenerated term) *)
+Lemma cls_29_bytes s : matches cls_29 s -> exists b, s = [b] /\ (b = x27 \/ b = x7c).
 Proof.
-  revert b. assert (forall b, implb (cs_mem [(39, 39)%N; (124, 124)%N] b) (beqb b x27 || beqb b x7c) = true) as K
-    by (apply forall_bytes; vm_compute; reflexivity).
-  intros b H. specialize (K b). rewrite H in K. cbn [implb] in K. apply orb_true_iff in K.
+  unfold cls_29. intro H. apply matches_Chr in H. destruct H as (b & -> & M). exists b. split; [reflexivity |].
+  revert b M.
+  match goal with
+  | |- forall b, cs_mem ?cs b = true -> _ =>
+    assert (forall b, implb (cs_mem cs b) (beqb b x27 || beqb b x7c) = true) as K
+      by (apply forall_bytes; vm_compute; reflexivity)
+  end.
+  intros b M. specialize (K b). rewrite M in K. cbn [implb] in K. apply orb_true_iff in K.
   destruct K as [K | K]; apply beqb_eq in K; auto.
 Qed.
 
@@ -88,10 +93,9 @@ Proof.
   apply matches_Alt in H. destruct H as [H | H].
   2:{ apply matches_Star_one. unfold cell_alt. cbn [AltL]. apply MAltR. exact H. }
   unfold re_table_spoiler in H. cbn [CatL] in H. apply matches_Cat in H.
-  destruct H as (s1 & s2 & -> & H1 & H2). unfold cls_29 in H1, H2.
-  apply matches_Chr in H1. apply matches_Chr in H2.
+  destruct H as (s1 & s2 & -> & H1 & H2).
+  apply cls_29_bytes in H1. apply cls_29_bytes in H2.
   destruct H1 as (b1 & -> & M1). destruct H2 as (b2 & -> & M2).
-  apply cls_29_bytes in M1. apply cls_29_bytes in M2.
   assert (b1 = x27) as ->.
   { destruct M1 as [-> | ->]; [reflexivity |]. specialize (Hn x7c (or_introl eq_refl)). discriminate Hn. }
   assert (b2 = x27) as ->.
